@@ -40,6 +40,14 @@ func c08Variant(i, v int) string {
 			return fmt.Sprintf("local m%d = dofile(\"f%d.lua\")\nprint(m%d)\n", i, other, i)
 		}
 		return fmt.Sprintf("local m%d = require(\"%s\")\nprint(m%d)\n", i, mod, i)
+	case 9: // defines the cross-file function with another parameter count (the message of the callers' warning changes, not its place)
+		return fmt.Sprintf("G%d = { v = %d }\nfunction gf%d(a) return a end\n", i, i, i)
+	case 10: // declares an annotation class
+		return fmt.Sprintf("---@class Cls%d\n---@field n number\nlocal cls%d = {}\nreturn cls%d\n", i, i, i)
+	case 11: // uses the annotation class of another file
+		return fmt.Sprintf("---@type Cls%d\nlocal v%d = nil\nprint(v%d)\n", other, i, i)
+	case 12: // the empty file
+		return ""
 	case 8: // a second clean text
 		return fmt.Sprintf("local t%d = { 1 }\nreturn t%d\n", i, i)
 	default: // another syntax error variant
@@ -103,7 +111,7 @@ func runC08(res *lib.Result, tier string, seed int64, args []string) error {
 			if cleanMode {
 				return []int{0, 8}[r.Intn(2)]
 			}
-			return r.Intn(6)
+			return []int{0, 1, 2, 3, 4, 5, 3, 4, 9, 10, 11, 12}[r.Intn(12)]
 		}
 		for i, n := range names {
 			if cleanMode || r.Chance(5, 6) {
@@ -113,6 +121,13 @@ func runC08(res *lib.Result, tier string, seed int64, args []string) error {
 		}
 		if len(files) == 0 {
 			disk["f0.lua"], files["f0.lua"] = 0, c08Variant(0, 0)
+		}
+		if hi%8 == 5 {
+			// every file declares a class and uses the next one's... here: all files exist, file x declares, x-1 uses
+			for i, n := range names {
+				disk[n] = []int{10, 11}[(i+hi/8)%2]
+				files[n] = c08Variant(i, disk[n])
+			}
 		}
 		if err := lib.WriteWorkspace(dir, files); err != nil {
 			return err
@@ -209,12 +224,25 @@ func runC08(res *lib.Result, tier string, seed int64, args []string) error {
 		// file, then another file is edited cleanly and saved (the workspace is clean again at that event)
 		type scripted struct{ i, k, v int }
 		var script []scripted
+		if hi%8 == 5 {
+			// a file that declares an annotation class is deleted while another file uses the class
+			x := 2 // variants [10, 11, 10]: f1 uses the class f2 declares
+			if (hi/8)%2 == 1 {
+				x = 1 // variants [11, 10, 11]: f0 uses the class f1 declares
+			}
+			script = []scripted{{x, 9, -2}}
+		}
 		if cleanMode && hi%8 == 7 {
 			a, b := r.Intn(3), r.Intn(3)
 			for b == a {
 				b = r.Intn(3)
 			}
 			script = []scripted{{a, 0, 0}, {a, 2, []int{1, 6, 7}[r.Intn(3)]}, {a, 7, 0}, {b, 0, 0}, {b, 2, []int{0, 8}[r.Intn(2)]}, {b, 5, 0}}
+		}
+		if hi%8 == 5 {
+			nEv = r.Intn(2) // the comparison with a fresh server follows (almost) directly
+		} else if hi%3 == 1 {
+			nEv = 1 + r.Intn(4) // short histories: the state right after an event is compared with a fresh server
 		}
 		for e := 0; e < nEv+len(script) && ok; e++ {
 			i := r.Intn(3)
@@ -257,7 +285,7 @@ func runC08(res *lib.Result, tier string, seed int64, args []string) error {
 				if !open[n] {
 					continue
 				}
-				v := r.Intn(8)
+				v := []int{0, 1, 2, 3, 4, 5, 6, 7, 9, 10, 11, 3, 4, 12}[r.Intn(14)]
 				if cleanMode {
 					v = []int{0, 8, 1, 6, 7}[r.Intn(5)]
 				}
@@ -323,7 +351,7 @@ func runC08(res *lib.Result, tier string, seed int64, args []string) error {
 					os.WriteFile(filepath.Join(dir, n), []byte(c08Variant(i, v)), 0o644)
 					typ = 1
 					history = append(history, fmt.Sprintf("create %s (variant %d) + didChangeWatchedFiles", n, v))
-				} else if r.Chance(1, 2) {
+				} else if forceV != -2 && r.Chance(1, 2) {
 					v := diskVariant()
 					disk[n] = v
 					os.MkdirAll(filepath.Dir(filepath.Join(dir, n)), 0o755)
